@@ -1,4 +1,5 @@
 import Pm.Dev2Fd
+import Pm.Dev2Timer
 /-! # C20 — no resource leaks: descriptors and coprocess children
 
 Scope: the connection layer of one device (`device.c:_connect/_disconnect/_reconnect/_handle_ready_device/
@@ -265,5 +266,116 @@ example : opened (postPoll exPipe exEnv ⟨[]⟩).1.sys = [3002, 3003] ∧ close
     forked (postPoll exPipe exEnv ⟨[]⟩).1.sys = [5001] ∧ (postPoll exPipe exEnv ⟨[]⟩).1.dev.cpid = some 5001 ∧
     (postPoll exPipe exEnv ⟨[]⟩).1.dev.fd = some 3002 ∧ (postPoll exPipe exEnv ⟨[]⟩).1.dev.loggedIn = true ∧
     (postPoll exPipe exEnv ⟨[]⟩).1.aborted = false := by decide
+
+/-! ## shutdown: what `main` does after `_select_loop` returns (`cli_fini`, `dev_fini`)
+
+`Pm.Daemon.teardown w` is the mirror: a list of the strings the harness compares with the traced system calls of the real
+daemon.  The strings are the rendering — by `showSys`, the function that prints every pass's calls — of a structured log:
+one `close` per client, then `tdDev d` for every device `d` in configuration order, where `tdDev d` is the system-call
+log of `_disconnect`'s transport half for a device that is CONNECTED and empty otherwise (`dev_destroy` tests exactly
+`connect_state == DEV_CONNECTED`).  `openFds w` = the clients' descriptors followed by the descriptor of every device that
+records one; `tdClosed w` = what is closed; `tdLeft w` = the recorded device descriptors that are not.  Helper lemmas:
+`Pm/Dev2Timer.lean`. -/
+section shutdown
+open Pm.Daemon Pm.Dev2.Timer
+
+/-- **The shutdown log.**  `teardown` issues one `close` per client (in list order, each client's own descriptor) and then
+    each device's share; and the strings of a CONNECTED device's share are: `kill pid` and `waitpid pid` for exactly the
+    recorded child if the device is a coprocess with one, then `close fd` for exactly the recorded descriptor
+    (`showSys` prints closes last; `_disconnect` issues the close first — `C20_shutdown_device`). -/
+theorem C20_shutdown_log (w : W) :
+    teardown w = (w.clients.map fun c => s!"Y close {c.fd}") ++ (w.devs.flatMap fun nd => showSys [] (tdDev nd.2)) ∧
+    ∀ d : Dev, d.conn = 2 →
+      showSys [] (tdDev d) =
+        (match d.isPipe, d.cpid with | true, some pid => [s!"Y kill {pid} 15", s!"Y waitpid {pid}"] | _, _ => []) ++
+        (match d.fd with | some fd => [s!"Y close {fd}"] | none => []) :=
+  ⟨teardown_eq w, showSys_tdDev⟩
+
+/-- **One device's share of the shutdown**, structured.  (1) It is `close fd` for the recorded descriptor followed by
+    `kill pid, waitpid pid` for the recorded child of a coprocess — if the device is CONNECTED — and nothing otherwise.
+    (2) Descriptor audit, no hypothesis: replayed from the descriptor the device records, no `close` hits a descriptor
+    that is not open, and afterwards nothing is held if the device was CONNECTED, while otherwise the descriptor is STILL
+    held.  (3) Child audit under the invariants `ChildInv`, `ConnRange`: `kill` goes to the recorded child only,
+    `waitpid` follows it, and afterwards no child is left, none is signalled but unreaped — for every device, because a
+    device that records a child is a coprocess, hence (third conjunct of `ChildInv`) never CONNECTING, hence CONNECTED. -/
+theorem C20_shutdown_device (d : Dev) :
+    tdDev d = (if d.conn == 2 then closeOf d.fd ++ reapOf d.isPipe d.cpid else []) ∧
+    fdRun d.fd.toList (tdDev d) = some (if d.conn == 2 then [] else d.fd.toList) ∧
+    (ChildInv d → ConnRange d → kidRun (d.cpid.toList, []) (tdDev d) = some ([], [])) :=
+  ⟨tdDev_eq d, tdDev_fdRun d, tdDev_kidRun d⟩
+
+/-- **The descriptor ledger of the shutdown.**  For every descriptor number: held = closed + left open.  Under the
+    invariants `FdInv`, `ConnRange` of every device, what is left open is exactly the descriptors of the devices that are
+    still CONNECTING — `dev_destroy` disconnects CONNECTED devices only (recorded observation: such a descriptor stays
+    open until the process exits).  And when the descriptors held are pairwise distinct numbers, every one of them that
+    is not left open — every client's in particular — is closed EXACTLY once, and nothing else is closed. -/
+theorem C20_shutdown (w : W) :
+    (∀ n, (openFds w).count n = (tdClosed w).count n + (tdLeft w).count n) ∧
+    ((∀ nd ∈ w.devs, FdInv nd.2 ∧ ConnRange nd.2) →
+      tdLeft w = (w.devs.filter fun nd => nd.2.conn == 1).flatMap fun nd => nd.2.fd.toList) ∧
+    ((openFds w).Nodup → ∀ n, (tdClosed w).count n = if n ∈ openFds w ∧ n ∉ tdLeft w then 1 else 0) ∧
+    (∀ c ∈ w.clients, c.fd ∈ tdClosed w) :=
+  ⟨teardown_balance w, tdLeft_connecting w, teardown_once w,
+   fun c hc => by unfold tdClosed; exact List.mem_append_left _ (List.mem_map.mpr ⟨c, hc, rfl⟩)⟩
+
+/-- non-vacuity: one client (descriptor 1000), the connected tcp device (2000), the connected coprocess device (3000, child
+    5000), a tcp device still CONNECTING (2001), an idle device: the log; what is held, closed, left; the invariants -/
+example : teardown tdWorld = ["Y close 1000", "Y close 2000", "Y kill 5000 15", "Y waitpid 5000", "Y close 3000"] := by
+  decide +kernel
+example : openFds tdWorld = [1000, 2000, 3000, 2001] ∧ tdClosed tdWorld = [1000, 2000, 3000] ∧ tdLeft tdWorld = [2001] ∧
+    (openFds tdWorld).Nodup := by decide
+example : ∀ nd ∈ tdWorld.devs, FdInv nd.2 ∧ ConnRange nd.2 ∧ ChildInv nd.2 := by
+  simp [tdWorld, FdInv, ConnRange, ChildInv, exTcp, exPipe, exDev]
+
+/-- without `ChildInv` a child can be left: the coprocess device (wrongly) CONNECTING with child 5000 recorded is not
+    touched by `dev_destroy` -/
+theorem C20_shutdown_needs_childInv_counterexample :
+    kidRun (exPipeConnecting.cpid.toList, []) (tdDev exPipeConnecting) = some ([5000], []) := by decide
+
+end shutdown
+
+/-! ## the daemon-level descriptor ledger, client part
+
+`daemonPass`'s output lines (`Y accept …`, `Y close …`, `Y socket …`) are strings; the ledger is therefore stated over the
+structured client-side log `w.sys : List Pm.Daemon.Sys` that `cli_post_poll` starts empty and that the device phase does
+not touch: `accepted log` = the descriptors of its successful `accept`s, `closedC log` = the descriptors of its `close`s.
+The devices' descriptors are covered per device by `C20_fd_ledger` (their logs are `Pm.Dev2.Sys` lists, rendered to strings
+by `daemonPass`). -/
+section cliLedger
+open Pm.Daemon Pm.Dev2.Timer
+
+/-- **One client's share of `cli_post_poll`.**  `clientPass w c e` never touches the client list and never accepts; it
+    closes the client's own descriptor — once — exactly when it destroys the client (result `none`: POLLERR/POLLNVAL, or
+    the client has quit/hung up and has no command in progress), and closes nothing otherwise; a surviving client
+    keeps its id and its descriptor. -/
+theorem C20_client_pass (w : W) (c : Cli) (e : Option FdEnv) :
+    (clientPass w c e).1.clients = w.clients ∧
+    ∃ ext, (clientPass w c e).1.sys = w.sys ++ ext ∧ accepted ext = [] ∧
+      closedC ext = (match (clientPass w c e).2 with | none => [c.fd] | some _ => []) ∧
+      ∀ c', (clientPass w c e).2 = some c' → c'.id = c.id ∧ c'.fd = c.fd :=
+  clientPass_ledger w c e
+
+/-- **The clients' descriptor ledger of a pass.**  When the clients' ids are pairwise distinct and below `nextId` (true of
+    the empty list; the first is kept by every pass, the second is how ids are handed out), then over `cli_post_poll` —
+    and over the whole `daemonPass`, whose device phase changes neither the log nor any client's descriptor — for every
+    descriptor number: held by a client before + accepted = closed + held by a client afterwards.  So no client
+    descriptor is closed twice or forgotten: a client leaves the list exactly when its descriptor is closed. -/
+theorem C20_client_ledger (w : W) (p : PassIn) (hid : (w.clients.map (·.id)).Nodup)
+    (hfresh : ∀ c ∈ w.clients, c.id < w.nextId) :
+    ((∀ n, (w.clients.map (·.fd)).count n + (accepted (cliPostPoll w p.acc p.envs).sys).count n =
+        (closedC (cliPostPoll w p.acc p.envs).sys).count n + ((cliPostPoll w p.acc p.envs).clients.map (·.fd)).count n) ∧
+      ((cliPostPoll w p.acc p.envs).clients.map (·.id)).Nodup) ∧
+    ((∀ n, (w.clients.map (·.fd)).count n + (accepted (daemonPass w p).1.sys).count n =
+        (closedC (daemonPass w p).1.sys).count n + ((daemonPass w p).1.clients.map (·.fd)).count n) ∧
+      ((daemonPass w p).1.clients.map (·.id)).Nodup) :=
+  ⟨cliPostPoll_ledger w p.acc p.envs hid hfresh, daemonPass_cli_ledger w p hid hfresh⟩
+
+/-- non-vacuity: client 1 on descriptor 1000; in the pass a second client is accepted (1001) and `poll` reports POLLNVAL
+    on 1000: 1001 accepted, 1000 closed, afterwards client 2 on 1001 -/
+example : (cliWorld.clients.map (·.id)).Nodup ∧ (∀ c ∈ cliWorld.clients, c.id < cliWorld.nextId) ∧
+    accepted (cliPostPoll cliWorld 1 cliEnvs).sys = [1001] ∧ closedC (cliPostPoll cliWorld 1 cliEnvs).sys = [1000] ∧
+    (cliPostPoll cliWorld 1 cliEnvs).clients.map (·.fd) = [1001] := by decide +kernel
+
+end cliLedger
 
 end Pm.Props.C20
